@@ -166,7 +166,7 @@ def run(prog, R):
                 R.add('SPLIT-LF', b, 'memchr', v == 10, site(b, t.line), '%s(needle=%s)' % (tp, t.args[0].pretty()))
             elif c.is_('slice::split', 'core::slice::split', 'slice::splitn', 'core::slice::splitn'):
                 rs = roots_of(b, t.args[0], through_calls=index_through)
-                on_buffer = any(r[0] == 'call' and (r[1].callee.is_('buffer_redux::BufReader::buffer') or r[1].callee.name == 'get_buf') for r in rs)
+                on_buffer = any(r[0] == 'call' and is_buffer_call(prog, r[1].callee) for r in rs)
                 if not on_buffer:
                     continue
                 cb = closure_of_arg(prog, b, t, len(t.args) - 1)
